@@ -34,4 +34,34 @@ def uncoveredReport : List String :=
   commands.flatMap fun c => (c.decls.filter fun d => !(covered c d || exempt c d)).map fun d =>
     c.name ++ ":" ++ d.cls ++ ":" ++ d.kind ++ ":" ++ d.long
 
+/-- **how a payload value is written into the key.**  `encodePayload` marshals the tuples as JSON.
+Forms whose JSON text determines the value: a dereferenced option / positional variable (`*v`:
+string, bool, int, rune, []string — element order included), a declared variable itself (JSON
+dereferences the pointer), a `String()` text, `strings.Join` of the command path,
+`encodeToString` of a digest, and the identifiers assigned from `h.Sum(nil)` (digest),
+`seqio.Detect` (the file type, an int) or an index expression (the `comma` rune).  A PARSED value
+handed over as it is (`loc` instead of `loc.String()`) is encoded by its structure: `Joined` and
+`Ordered`, `Point` and `Between` then share their text (seeded change C14-f). -/
+def valueFormOk (t : Tuple) : Bool :=
+  t.form == "deref" || t.form == "method:String" || t.form == "call:strings.Join" ||
+  t.form == "call:encodeToString" || t.form == "literal" ||
+  (t.form == "ident" && (t.prov == "decl" || t.prov == "h.Sum" || t.prov == "seqio.Detect" || t.prov == "index"))
+
+/-- `command:key:form:prov` of every payload tuple whose value is not written in one of these forms -/
+def valueFormReport : List String :=
+  commands.flatMap fun c => (c.payload.filter fun t => !valueFormOk t).map fun t =>
+    c.name ++ ":" ++ t.key ++ ":" ++ t.form ++ ":" ++ t.prov
+
+/-- callees that re-order or overwrite their argument in place -/
+def mutators : List String :=
+  ["sort.Strings", "sort.Sort", "sort.Stable", "sort.Slice", "sort.SliceStable", "sort.Ints", "copy",
+   "slices.Sort", "slices.Reverse", "rand.Shuffle"]
+
+/-- a declared variable that a payload tuple reads is handed to a mutating callee somewhere in the
+function: the key then describes the mutated value, not what the command line said (seeded change
+C14-e: `sort.Strings(*locstrs)` drops the order of the locators from the key of `gts extract`) -/
+def mutatedReport : List String :=
+  commands.flatMap fun c => (c.decls.filter fun d => covered c d && d.uses.any mutators.contains).map fun d =>
+    c.name ++ ":" ++ d.long
+
 end Gts.CliTable
